@@ -177,7 +177,8 @@ class SharedDataMiddleware:
 
             try:
                 resource = reader.open_resource(path)
-            except OSError:
+            except (OSError, ValueError):
+                # ValueError: embedded null byte in the requested path
                 return None, None
 
             if isinstance(resource, BytesIO):
